@@ -385,3 +385,33 @@ def run(pm, ctx):
     ctx.import_rules(pm, 'C02', {'C02-R6'}, 'C07-R8',
                      'open unions get the implicit `other` catch-all exactly when no ancestor '
                      'provides one (shared with C02-R6)')
+
+    # ---------------- R9: the base struct a lenient decode falls back to is a valid value of
+    # the struct-tree type wherever it is stored (fields, list items, map values, tag payloads)
+    ctx.rule('C07-R9', 'a struct-tree validator accepts every instance of its base class: '
+                       'StructTree adds no validation of its own and Struct checks the type with '
+                       'isinstance')
+    bvm = pm.module('stone.backends.python_rsrc.stone_validators')
+    st = bvm.classes['StructTree']
+    extra = sorted(set(st.methods) - {'__init__'})
+    ctx.check('C07-R9', not extra, 'bv.StructTree overrides nothing but __init__', bvm.relpath,
+              msg='bv.StructTree overrides %s: the base-struct value produced for an unknown '
+                  'subtype may now be refused when it is stored in a field, list, map or tag'
+                  % extra, key='C07-R9|StructTree|overrides')
+    init = st.methods.get('__init__')
+    if init is not None:
+        body_ = [n for n in init.node.body if not (isinstance(n, ast.Expr) and
+                                                  isinstance(n.value, ast.Constant))]
+        ctx.check('C07-R9', len(body_) == 1 and unparse(body_[0]) ==
+                  'super().__init__(definition)', 'bv.StructTree.__init__ only delegates',
+                  init.loc, msg='bv.StructTree.__init__ does more than delegate',
+                  key='C07-R9|StructTree|init')
+    vto = pm.func('stone.backends.python_rsrc.stone_validators.Struct.validate_type_only')
+    pi_ = path_info(vto.node)
+    rs = [n for n in own_nodes(vto.node) if isinstance(n, ast.Raise)]
+    ok = len(rs) == 1 and [(unparse(e), p) for e, p in pi_.at(rs[0])] == \
+        [('isinstance(val, self.definition)', False)]
+    ctx.check('C07-R9', ok, 'bv.Struct.validate_type_only refuses exactly non-instances of the '
+              'definition (subclasses pass)', vto.loc,
+              msg='bv.Struct.validate_type_only no longer tests isinstance(val, self.definition) '
+                  'only', key='C07-R9|%s' % vto.qualname)
